@@ -197,8 +197,8 @@ package rle
 //@   ensures[C10] err == nil ==> (rfault ==> old(rfault))
 //@ loop readRLE#1
 //@   invariant freshsince(out) && (rfault ==> old(rfault))
-//@   invariant[C04,C07] 0 <= i && #out == count && count == header / 2
-//@   invariant[C04,C07] forall k in 0..i: k < #out ==> out[k] == value
+//@   invariant[C04,C07] 0 <= iter && #out == count && count == header / 2
+//@   invariant[C04,C07] forall k in 0..iter: k < #out ==> out[k] == value
 
 //@ func readIntLittleEndianPaddedOnBitWidth
 //@   requires dyn(in) == typeid("*bytes.Reader") && payload(in) != 0
